@@ -544,7 +544,76 @@ def configs(tier, seed):
         cfgs.append({'t': 'http', 'sweep': sweep, 'reuse': True})
     cfgs.append({'t': 'verdict'})
     cfgs.append({'t': 'default-socket'})
+    cfgs.append({'t': 'slow-reader'})
     return cfgs
+
+
+def check_slow_reader(pause, window, res):
+    """The library's own SMTP edge behind a small receive window stops reading for ``pause`` (virtual) seconds right after its
+    354; the relay's data timeout is 13 s, its command timeout 11 s.  The attempt may fail (timeout) -- but whatever message the
+    edge ends up accepting must be the message that was handed to the relay, byte for byte."""
+    cq = CaptureQueue()
+    info = {'errors': []}
+    env = make_env('s@x.test', ['a@x.test'], HEADERS[0], b'line one\r\n' + b'x' * 300 + b'\r\nlast line\r\n')
+    out = {}
+    with World(Chooser(), max_steps=20000) as w:
+        net = Net(w)
+        saved = edge_smtp.PtrLookup
+        edge_smtp.PtrLookup = FakePtrLookup
+        try:
+            edge = SmtpEdge(None, cq, hostname='edge.test', command_timeout=60.0, data_timeout=120.0)
+
+            def creator(address):
+                c, s_ = net.pair(peername=address, capacity=window)
+                state = {'paused': False}
+                orig_recv = s_.recv
+
+                def recv(n=4096, *flags):
+                    if not state['paused'] and any(d.startswith(b'354') for t, d in s_.sent_log):
+                        state['paused'] = True
+                        gevent.sleep(pause)             # the edge's host is busy: nothing is read for a while
+                    return orig_recv(n, *flags)
+                s_.recv = recv
+
+                def serve():
+                    try:
+                        edge.handle(s_, ('192.0.2.7', 5555))
+                    except gevent.GreenletExit:
+                        raise
+                    except BaseException as e:
+                        info['errors'].append('edge:' + type(e).__name__)
+                gevent.spawn(serve)
+                return c
+            relay = StaticSmtpRelay('edge.test', 25, socket_creator=creator, ehlo_as='relay.test', connect_timeout=7.0,
+                                    command_timeout=11.0, data_timeout=13.0)
+
+            def go():
+                try:
+                    out['o'] = ('returned', relay.attempt(env.copy(), 0))
+                except gevent.GreenletExit:
+                    raise
+                except BaseException as e:
+                    out['o'] = ('raised', e)
+            gevent.spawn(go)
+            w.run_until_quiescent()
+        finally:
+            edge_smtp.PtrLookup = saved
+    res.evaluations += 1
+    per, whole = classify(out.get('o'), env) if out.get('o') else ({}, 'blocked')
+    want = env.flatten()
+    viol = []
+    rep = {'t': 'slow-reader', 'pause': pause, 'window': window}
+    desc = 'edge stops reading for %g s after its 354 (receive window %d bytes); relay data timeout 13 s, command timeout 11 s: attempt -> %s; the edge accepted %d message(s)' % (
+        pause, window, whole, len(cq.got))
+    for sender, rcpts, (hdr, body) in cq.got:
+        if not content_equal(want, (hdr, body)):
+            viol.append(({'transport': 'smtp', 'config': 'slow-reader', 'kind': 'content-changed', 'reported': whole.split(':')[0]},
+                         desc + '; it accepted header block %r body %r (%d bytes), handed over were %d body bytes' % (hdr[:60], body[:60], len(body), len(want[1]))))
+            break
+    if whole == 'blocked':
+        viol.append(({'transport': 'smtp', 'config': 'slow-reader', 'kind': 'attempt-never-returned'}, desc))
+    res.outcome(('slow-reader', whole, len(cq.got)))
+    return [(sig, msg, rep) for sig, msg in viol]
 
 
 def check_default_socket():
@@ -581,6 +650,15 @@ def run_config(cfg, tier, seed):
     if cfg['t'] == 'verdict':
         check_verdicts(res)
         res.sample({'edge_queue_verdicts': [c for c, t in VERDICTS], 'transports': ['smtp', 'http']})
+        return res.as_dict()
+    if cfg['t'] == 'slow-reader':
+        for pause in (5.0, 12.0, 15.0, 20.0, 23.0, 30.0):
+            for window in (64, 200, 1000):
+                res.interesting(('slow-reader', pause, window))
+                res.count('slow_reader_cases')
+                for sig, msg, rep in check_slow_reader(pause, window, res):
+                    res.violation(sig, msg, rep)
+        res.sample({'slow_reader': {'pauses': [5, 12, 15, 20, 23, 30], 'windows': [64, 200, 1000]}})
         return res.as_dict()
     if cfg['t'] == 'default-socket':
         what, vs = check_default_socket()
@@ -733,6 +811,12 @@ def vacuity(counters, tier):
 
 
 def replay(rep):
+    if rep.get('t') == 'slow-reader':
+        res = Result()
+        vs = check_slow_reader(rep['pause'], rep['window'], res)
+        if vs:
+            return True, vs[0][1]
+        return False, 'whatever the edge accepted is the message that was handed over'
     if rep.get('t') == 'default-socket':
         what, vs = check_default_socket()
         if vs:
